@@ -645,6 +645,9 @@ func familyFunc(tier string) []tmpl {
 		call("sort_by", hLit(`[{"k":2,"v":"x"},{"k":1,"v":"y"},{"k":2,"v":"z"}]`), ref(hField("k"))),
 		call("max_by", hLit(`[{"k":2,"v":"x"},{"k":1,"v":"y"},{"k":2,"v":"z"}]`), ref(hField("k"))),
 		call("min_by", hLit(`[{"k":2,"v":"x"},{"k":1,"v":"y"},{"k":1,"v":"z"}]`), ref(hField("k"))),
+		// longer than the insertion-sort threshold of the standard sorts: stability must not depend on length
+		call("sort_by", hLit(`[{"k":2,"v":0},{"k":1,"v":1},{"k":2,"v":2},{"k":1,"v":3},{"k":2,"v":4},{"k":1,"v":5},{"k":2,"v":6},{"k":1,"v":7},{"k":2,"v":8},{"k":1,"v":9},{"k":2,"v":10},{"k":1,"v":11},{"k":2,"v":12},{"k":1,"v":13},{"k":2,"v":14},{"k":1,"v":15},{"k":2,"v":16},{"k":1,"v":17}]`), ref(hField("k"))),
+		call("sort", hLit(`[5,3,9,1,7,3,8,2,6,4,0,9,5,1,7,3,8,2,6,4]`)), call("sort", hLit(`["e","c","i","a","g","c","h","b","f","d","j","a","e","k"]`)),
 		call("sort_by", hLit(`[{"k":1},{"k":"a"}]`), ref(hField("k"))), call("sort_by", hLit(`[{"k":null}]`), ref(hField("k"))),
 		call("max_by", hLit(`[{"k":null}]`), ref(hField("k"))), call("min_by", hLit(`[{"k":[]}]`), ref(hField("k"))))
 	return dedupe(out)
